@@ -52,11 +52,12 @@ CHECKS = {
         parts=[part("requests", "core", "writer", "TestVerifC20Requests", shards=(4, 8), budget=(150, 900))],
     ),
     "C07": dict(
-        level="model_checking", engine="seq",
+        level="model_checking", engine="seq+sched",
         technique="total enumeration of pack shapes x configurations through the real HandleReplicateMessage; bytes decoded with Milvus' own decoder and compared with the pack",
         text="Every pack of up to 3 (4 thorough) messages over the six message kinds, for every replicate-id / name-mapping / downstream-answer configuration, is sent through the real ChannelWriter and replicate message manager; the serialized messages captured at the fake DataHandler are decoded exactly as the Milvus proxy does (MsgHeader -> type -> ProtoUnmarshalDispatcher) and compared field by field with a pristine copy of the pack, together with the call envelope, the returned checkpoints and the error.",
         note="Field values come from builders (2 rows, int64 pks, one partition name); concurrent calls on different channels are explored by the sched part. The fake answers with a synthetic target position.",
-        parts=[part("bytes", "core", "writer", "TestVerifC07Bytes", shards=(8, 16), budget=(150, 900))],
+        parts=[part("bytes", "core", "writer", "TestVerifC07Bytes", shards=(8, 16), budget=(150, 900)),
+               part("sched", "core", "writer", "TestVerifC07Sched", shards=(4, 8), budget=(120, 600), gomaxprocs=1)],
     ),
     "C08": dict(
         level="model_checking", engine="seq",
@@ -71,5 +72,12 @@ CHECKS = {
         text="Every source catalog reachable by a history of legal root-coord operations up to the depth bound (two databases, repeated names across incarnations, all object states, tombstones) is written to the in-memory etcd and read by the real GetAllDroppedObj, with and without a Milvus downstream; entry set and horizons are compared with an expectation computed from the catalog model.",
         note="Catalogs come from histories so impossible catalogs cannot raise alarms; depth 6 (7 thorough), one collection name per database (two thorough), one partition name. fakeetcd models the etcd Get/prefix semantics used here; key layout and tombstone encoding copied from the reader's own constants.",
         parts=[part("snapshot", "core", "reader", "TestVerifC15Snapshot", shards=(8, 16), budget=(150, 900))],
+    ),
+    "C01": dict(
+        level="exploration", engine="sched",
+        technique="stateless DFS over goroutine schedules (deviation-bounded) of the real channel manager inside synctest bubbles, exhaustive over script and schedule space within the bounds",
+        text="The real replicateChannelManager (handlers, TS manager, barriers) is driven by fakemq streams; every single-stream script up to the length bound and every schedule of the multi-stream scenarios within the deviation bound is executed and the emitted stream is compared with the source log (complete, duplicate-free, ordered, payload-exact, packs in read order with the right labels).",
+        note="Bounds: scripts <= 2 packs (3 thorough) over 13 pack letters; <= 2 deviations (3 thorough); hook-to-hook segments are atomic; source dispatcher and downstream are the models of DESIGN 2.7.",
+        parts=[part("stream", "core", "reader", "TestVerifC01Stream", shards=(12, 16), budget=(150, 900), gomaxprocs=1)],
     ),
 }
